@@ -44,6 +44,7 @@ type poolSpec struct {
 	ExtCalls       bool   `json:"ext_calls"`
 	Flood          bool   `json:"flood"`     // start with more pooled transfers of one token than a batch takes
 	LongPark       bool   `json:"long_park"` // start with a deposit that is observed but executed only after more than a hundred later events
+	OldChain       bool   `json:"old_chain"` // fxcore's own height is far above every external height and timeout of the history
 }
 
 func poolCases(seed uint64, tier, prop string) []core.Case {
@@ -57,7 +58,7 @@ func poolCases(seed uint64, tier, prop string) []core.Case {
 	for i := 0; i < n; i++ {
 		s := poolSpec{Seed: rng.Uint64(), Chains: combos[i%len(combos)], Steps: 150 + rng.IntN(150), N: 3 + rng.IntN(3),
 			BatchTimeoutMs: uint64(60_000 + rng.IntN(600_000)), CallTimeoutMs: uint64(3_600_001 + rng.IntN(3_600_000)),
-			ExtBlockMs: uint64(1000 + rng.IntN(14000)), FxBlockMs: uint64(1000 + rng.IntN(8000)), ExtCalls: i%4 == 3, Flood: i%13 == 6, LongPark: i%13 == 10}
+			ExtBlockMs: uint64(1000 + rng.IntN(14000)), FxBlockMs: uint64(1000 + rng.IntN(8000)), ExtCalls: i%4 == 3, Flood: i%13 == 6, LongPark: i%13 == 10, OldChain: i%4 == 1}
 		if i%5 == 2 || i%5 == 4 {
 			// fxcore's clock runs far ahead of the external chain: the projected external height, and with it
 			// the timeouts of new batches and calls, overshoots between observations, so timeouts are not
@@ -103,7 +104,8 @@ type callRec struct {
 }
 
 type poolRun struct {
-	settlesByRefund bool // the operation being measured removed a bridge call from the store by the timeout path
+	fwd             common.Address // a plain forwarder contract of a stranger
+	settlesByRefund bool           // the operation being measured removed a bridge call from the store by the timeout path
 	spec            poolSpec
 	rng             *rand.Rand
 	c               *chain.Chain
@@ -177,7 +179,11 @@ func runPool(cs core.Case, verbose bool, c04, c05, c06 bool) core.CaseResult {
 
 func (r *poolRun) setup() bool {
 	spec := r.spec
-	r.c = chain.New(chain.Config{Seed: spec.Seed, NumVals: 2, NumUsers: 5,
+	initial := int64(0)
+	if spec.OldChain {
+		initial = 5_000_000 // a mature fxcore bridging a young external chain
+	}
+	r.c = chain.New(chain.Config{Seed: spec.Seed, NumVals: 2, NumUsers: 5, InitialHeight: initial,
 		CrosschainParams: func(name string, p *crosschaintypes.Params) {
 			p.SignedWindow = 10_000
 			p.ExternalBatchTimeout = spec.BatchTimeoutMs
